@@ -738,6 +738,150 @@ impl Check for Copatterns {
     }
 }
 
+/* ------------------------------ binder patterns (one-row matrices) ------------------------------ */
+
+/// A pattern in binder position (`let`, `do`, function parameter, value-level `let`, pure function
+/// parameter) has no other arm to fall through to: it is a one-row matrix and must be accepted
+/// exactly when it matches every value of its type.
+pub struct Binders {
+    cases: Vec<(T, P, usize)>,
+    chunk: usize,
+    scratch: Option<Scratch>,
+}
+const BINDER_FORMS: [&str; 5] = ["let", "do", "fn", "value-let", "value-fn"];
+impl Binders {
+    pub fn new() -> Self {
+        let mut cases = vec![];
+        for ty in scrutinee_types() {
+            for p in patterns(&ty, 2) {
+                for b in 0..BINDER_FORMS.len() {
+                    cases.push((ty.clone(), p.clone(), b));
+                }
+            }
+        }
+        Binders { cases, chunk: 8, scratch: None }
+    }
+    fn program(ty: &T, p: &P, b: usize, vals: &[Val]) -> String {
+        let mut s = preamble();
+        let tyt = ty_text(ty);
+        let dom = if matches!(ty, T::Prod(_)) { format!("({})", tyt) } else { tyt.clone() };
+        let pt = pat_text(p, &mut Namer(0));
+        let f = match BINDER_FORMS[b] {
+            | "let" => format!("{{ fn (v : {tyt}) => let {pt} = v in ret 1 }}"),
+            | "do" => format!("{{ fn (v : {tyt}) => do {pt} <- ret v; ret 1 }}"),
+            | "fn" => format!("{{ fn (v : {tyt}) => (fn ({pt} : {tyt}) => ret 1) v }}"),
+            | "value-let" => format!("{{ fn (v : {tyt}) => ret (let {pt} = v in 1) }}"),
+            | _ => format!("{{ fn (v : {tyt}) => let g : {dom} -> Int64 = fn ({pt} : {tyt}) => 1 in ret (g v) }}"),
+        };
+        s.push_str(&format!("  let f : Thk ({dom} -> Ret Int64) = {f} in\n"));
+        for (i, v) in vals.iter().enumerate() {
+            s.push_str(&format!("  do r{} <- ! f {};\n", i, {
+                let t = val_text(v, ty);
+                if matches!(ty, T::D(_)) { format!("({} : {})", t, tyt) } else { t }
+            }));
+        }
+        s.push_str("  ret 0\nend\n");
+        s
+    }
+}
+impl Check for Binders {
+    fn property(&self) -> &'static str {
+        "C04"
+    }
+    fn name(&self) -> String {
+        "c04-binders".into()
+    }
+    fn len(&self) -> usize {
+        self.cases.len().div_ceil(self.chunk)
+    }
+    fn describe(&self, i: usize) -> String {
+        let (ty, p, b) = &self.cases[i * self.chunk];
+        format!("binder patterns #{}..#{}; first: {} binder, type {}, pattern {:?}\n{}", i * self.chunk, (i + 1) * self.chunk, BINDER_FORMS[*b], ty_text(ty), p, Binders::program(ty, p, *b, &values(ty, 3)))
+    }
+    fn rule(&self) -> String {
+        format!("every pattern of nesting depth <= 2 over each of the {} scrutinee types of c04-matches, in each of 5 binder constructs (let, do, function parameter, value-level let, pure function parameter) ({} binders); oracle = brute-force enumeration of every value: accepted iff the pattern matches every value of the type; a rejection carries a coverage diagnostic whose missing patterns denote unmatched values; an accepted binder runs on every value without failing; types with uninhabited components are judged only for soundness; non-trivial = patterns that nest a constructor", scrutinee_types().len(), self.cases.len())
+    }
+    fn run(&mut self, i: usize) -> CaseResult {
+        let scratch = self.scratch.get_or_insert_with(|| Scratch::new("c04b"));
+        let a = i * self.chunk;
+        let b = ((i + 1) * self.chunk).min(self.cases.len());
+        let mut r = CaseResult::ok("chunk").key(hash64(&format!("bd{}", i)));
+        let mut nontrivial = false;
+        for (ty, p, form) in &self.cases[a..b] {
+            let vals = values(ty, 3);
+            if format!("{:?}", p).contains("C(") {
+                nontrivial = true;
+            }
+            let uncovered: Vec<&Val> = vals.iter().filter(|v| !matches(p, v)).collect();
+            let irrefutable = uncovered.is_empty();
+            let text = Binders::program(ty, p, *form, &vals);
+            let path = scratch.write("main.zydeco", &text);
+            let res = guarded(|| {
+                let session = CompilerSession::default();
+                let result = session.analyze(&path);
+                let verdict = verdict_of(&result);
+                let coverage: Vec<CoverageError> = session.coverage(&path).unwrap_or_default();
+                let run = if verdict.accepted() { Some(Subject { session, result }.run(b"", &[], 20_000)) } else { None };
+                (verdict, coverage, run)
+            });
+            r = r.count("binders", 1);
+            let (verdict, coverage, run) = match res {
+                | Ok(x) => x,
+                | Err(p) => {
+                    r = r.violation(format!("coverage analysis panicked at {}", crate::front::short_loc(&p.loc)), format!("{:?}\n{}", p, text));
+                    continue;
+                }
+            };
+            let uninhabited = has_uninhabited_component(ty);
+            let suffix = if uninhabited { " (type with an uninhabited component)" } else { "" };
+            let form_name = BINDER_FORMS[*form];
+            match (&verdict, irrefutable) {
+                | (Verdict::Checked, true) => {
+                    r = r.count("accepted_irrefutable", 1);
+                    match run.map(|r| r.end) {
+                        | Some(RunEnd::Ret(s)) if s == "Integer(0)" => {}
+                        | other => r = r.violation(format!("an accepted irrefutable binder fails at run time ({form_name})"), format!("{:?}\n{}", other, text)),
+                    }
+                }
+                | (Verdict::Checked, false) => {
+                    r = r.violation(format!("refutable pattern accepted in binder position ({form_name}){suffix}"), format!("values not matched: {:?}\n{}", uncovered, text));
+                }
+                | (Verdict::Rejected(_), _) => {
+                    if coverage.is_empty() {
+                        // alias patterns with constructor members etc. are rejected by the pattern rules themselves
+                        r = r.count("rejected_for_another_reason", 1);
+                        continue;
+                    }
+                    if irrefutable && uninhabited {
+                        // the known C04 finding (coverage counts constructors whose payload type is empty); only soundness is judged here
+                        r = r.count("rejected_on_a_type_with_an_uninhabited_component", 1);
+                        continue;
+                    }
+                    if irrefutable {
+                        r = r.violation(format!("irrefutable pattern rejected in binder position ({form_name}){suffix}"), format!("{}\n{}", coverage.iter().map(|c| c.to_string()).collect::<Vec<_>>().join("; "), text));
+                        continue;
+                    }
+                    r = r.count("rejected_refutable", 1);
+                    for c in &coverage {
+                        if let CoverageError::RefutableBinder { missing, .. } = c {
+                            for m in missing {
+                                if !uncovered.iter().any(|v| cov_matches(m, v)) {
+                                    r = r.violation(format!("reported missing pattern of a binder denotes no unmatched value{suffix}"), format!("missing pattern {} ; unmatched values {:?}\n{}", m, uncovered, text));
+                                }
+                            }
+                        }
+                    }
+                }
+                | (other, _) => {
+                    r = r.violation("binder program fails before type checking (generator problem)", format!("{:?}\n{}", other, text));
+                }
+            }
+        }
+        r.nontrivial = nontrivial;
+        r
+    }
+}
+
 pub fn checks(tier: Tier) -> Vec<Box<dyn Check>> {
-    vec![Box::new(Matches::new(tier)), Box::new(Comatches::new()), Box::new(Copatterns::new(tier))]
+    vec![Box::new(Matches::new(tier)), Box::new(Comatches::new()), Box::new(Copatterns::new(tier)), Box::new(Binders::new())]
 }
